@@ -407,6 +407,35 @@ def parse_lenexp(cx, idx, e):
     cx.fail(idx, "unknown byte-length expression", e)
 
 
+FLAG_BITS = {}     # "Type::NAME" -> int
+COND_TESTS = {}    # test string -> coq condsem (or None when the flag type is hand-written)
+
+
+def scan_flag_consts(src):
+    for m in re.finditer(r"impl\s+(\w+)\s*\{", src):
+        ty = m.group(1)
+        j = match_close(src, m.end() - 1)
+        body = src[m.end():j]
+        for c in re.finditer(r"pub const (\w+)\s*:\s*Self\s*=\s*Self\s*\{\s*bits\s*:\s*(0x[0-9a-fA-F_]+|\d+)\s*\}", body):
+            FLAG_BITS["%s::%s" % (ty, c.group(1))] = int(c.group(2).replace("_", ""), 0)
+
+
+def cond_sem(kind, inner):
+    if kind == "compatible":
+        m = re.fullmatch(r"(\d+)u16", inner)
+        if m:
+            return "CGe %s" % m.group(1)
+        m = re.fullmatch(r"\((\d+)u16,(\d+)u16\)", inner)
+        return "CMajMin %s %s" % (m.group(1), m.group(2))
+    names = inner.split("|")
+    if not all(n in FLAG_BITS for n in names):
+        return None
+    mask = 0
+    for n in names:
+        mask |= FLAG_BITS[n]
+    return ("CMaskAll %d" if kind == "contains" else "CMaskAny %d") % mask
+
+
 def parse_cond_prefix(cx, idx, s):
     """s starts with COND followed by `.then(`/`.then_some(`; returns (coq cond, rest)"""
     m = re.match(r"(%s)\.(compatible|contains|intersects)\(" % IDENT, s)
@@ -421,6 +450,7 @@ def parse_cond_prefix(cx, idx, s):
     if not ok:
         cx.fail(idx, "unknown condition argument", s[:cl + 1])
     cx.count("conditions", m.group(2))
+    COND_TESTS[test] = cond_sem(m.group(2), inner)
     return "Cond %s %s" % (cs(m.group(1)), cs(test)), s[cl + 1:]
 
 
@@ -934,7 +964,9 @@ def main():
             raise Loud("no generated files under " + GEN_DIR)
         # sizes of records may be defined in a later file than their use: scan all first
         for p in files:
-            SIZES.scan_generated(p, strip_comments(open(p).read()))
+            src0 = strip_comments(open(p).read())
+            SIZES.scan_generated(p, src0)
+            scan_flag_consts(src0)
         for p in files:
             process_file(p, stats, layouts)
     except Loud as e:
@@ -958,6 +990,10 @@ def main():
             clist(l["rules"]).replace("; mk_rule", ";\n   mk_rule"),
             clist(l["getters"]).replace("; mk_getter", ";\n   mk_getter")))
     out.append("Definition all_layouts : list rlayout :=\n  %s.\n" % clist([coq_name(l["name"]) for l in layouts]).replace("; ", ";\n   "))
+    out.append("\n(* meaning of the gate tests, for the validation environment only (LayoutCheck.real_env); the theorems\n   quantify over every interpretation of the tests *)\n")
+    sems = ["(%s, %s)" % (cs(t), v) for t, v in sorted(COND_TESTS.items()) if v is not None]
+    out.append("Definition cond_sems : list (string * condsem) :=\n  %s.\n" % clist(sems).replace("; (", ";\n   ("))
+    stats["cond_tests_without_generated_flag_bits"] = sorted(t for t, v in COND_TESTS.items() if v is None)
     os.makedirs(os.path.dirname(OUT_V), exist_ok=True)
     txt = "".join(out)
     old = open(OUT_V).read() if os.path.exists(OUT_V) else None
